@@ -32,8 +32,19 @@ PYTHONPATH=$WT/src timeout 600 /venv/bin/python $OUT/demo.py > /tmp/exp/demo-wit
 echo "demo without change exit=$DO ($(tail -1 /tmp/exp/demo-without.txt | cut -c1-80))"
 mkdir -p $DEST
 cp $OUT/patch.diff $OUT/demo.py $OUT/notes.md $DEST/ 2>/dev/null
-cat > $DEST/meta.json <<EOT
-{"property": "$P", "source": "independent sub-agent given only the property text and a scratch worktree",
- "tests_with_change": "$T", "demo_exit_with_change": $DW, "demo_exit_without_change": $DO,
- "checks_run": "$RES", "needs": "see notes.md"}
-EOT
+/venv/bin/python - "$DEST/meta.json" "$P" "$T" "$DW" "$DO" "$RES" <<'PYEOF'
+import json, sys, os
+path, prop, tests, dw, do, res = sys.argv[1:7]
+m = {}
+if os.path.exists(path):
+    try:
+        m = json.load(open(path))
+    except Exception:
+        m = {}
+m.update({"property": prop, "source": "independent sub-agent given only the property text and a scratch worktree",
+          "tests_with_change": tests, "demo_exit_with_change": int(dw), "demo_exit_without_change": int(do),
+          "checks_run (check:VIOLATION lines)": res.strip()})
+m.pop("checks_run", None)
+m.setdefault("needs", "see notes.md")
+json.dump(m, open(path, "w"), indent=1)
+PYEOF
